@@ -1,6 +1,8 @@
 import PfVerif.Proofs.C14Up
 import PfVerif.Proofs.C14Sum
 import PfVerif.Proofs.C14Riv
+import PfVerif.Proofs.C14Fuel
+import PfVerif.Proofs.C14Down
 /-! # C14 — along-network operators equal their flow-path definitions
 
 Every theorem quantifies over all networks `ds`, all downstream-first orders `seq` (`Topo`, the
@@ -98,6 +100,16 @@ theorem fill_up_eq_spec (ds : Array Nat) (seq : List Nat) (data : Array Int) (nd
     ∀ i ∈ seq, ∀ v, walkValid ds data nd fuel i = some v → (fillnodataUpstream ds seq data nd)[i]! = v :=
   fill_eq_walk ds data nd seq htopo hb fuel
 
+/-- **full strength of `fill_up_eq_spec`: the oracle never runs out of fuel.** With the fuel the driver
+uses (`ds.size + 1`) the walk oracle returns a value at every cell of a downstream-first order whose
+cells are in range, and that value is the model's (no hypothesis on the walk). -/
+theorem fill_up_eq_spec_total (ds : Array Nat) (seq : List Nat) (data : Array Int) (nd : Int)
+    (htopo : Topo ds seq) (hb : ∀ i ∈ seq, i < data.size) (hbd : ∀ i ∈ seq, i < ds.size) :
+    ∀ i ∈ seq, walkValid ds data nd (ds.size + 1) i = some (fillnodataUpstream ds seq data nd)[i]! := by
+  intro i hi
+  obtain ⟨v, hv⟩ := walkValid_total_c14 ds data nd _ i (htopo.reach_size_c14 hbd i hi)
+  rw [hv, fill_up_eq_spec ds seq data nd htopo hb _ i hi v hv]
+
 theorem fill_up_outside (ds : Array Nat) (seq : List Nat) (data : Array Int) (nd : Int)
     (htopo : Topo ds seq) (hb : ∀ i ∈ seq, i < data.size) :
     ∀ i, i ∉ seq → (fillnodataUpstream ds seq data nd)[i]! = data[i]! :=
@@ -115,6 +127,20 @@ theorem fill_down_def (ds : Array Nat) (seq : List Nat) (data : Array Int) (nd :
        else mergeBranches how ((kids ds seq j).map fun c => fillOpt ds seq data nd how c)) ∧
     (fillDownModel ds seq data nd how)[j]! = (fillOpt ds seq data nd how j).getD nd :=
   fillDown_rec ds seq data nd how htopo hb j hj
+
+/-- **fill 'down': model = order-free oracle, as arrays (all three merge rules).** The oracle
+`fillDownSpec` the driver evaluates does not use the cell order: every cell holding a value walks
+downstream (fuel `ds.size + 1`) and is merged - in index order - into each empty cell it meets before
+the next cell holding a value. For every network, every downstream-first order that consists of the
+cells of the network (the driver reports the executable check `coversNet_c14` as `cover`), every field
+of the size of the network and `how ∈ {0 = max, 1 = min, 2 = sum}` the sweep model returns the same
+array. (For min/max the filled value is characterised by the frontier form and antisymmetry; for sum
+both are the sum over the feeding cells, each once - no walk returns to its start.) -/
+theorem fill_down_eq_spec (ds : Array Nat) (seq : List Nat) (data : Array Int) (nd : Int) (how : Nat)
+    (hhow : how ≤ 2) (htopo : Topo ds seq) (hb : ∀ i ∈ seq, i < ds.size) (hsz : data.size = ds.size)
+    (hcov : coversNet_c14 ds seq = true) :
+    fillDownModel ds seq data nd how = fillDownSpec ds data nd how :=
+  fillDown_eq_spec_c14 ds seq data nd how hhow htopo hb hsz (coversNet_sound_c14 ds seq hcov)
 
 /-- `min`: the merge of the branch values is a lower bound of the non-empty branches, is attained
 by one of them, and is empty exactly when every branch is empty — whatever the arrival order. -/
@@ -306,6 +332,15 @@ theorem stream_distance_eq_spec (ds : Array Nat) (seq : List Nat) (mask : Option
     ∀ i ∈ seq, ∀ v, walkDist ds mask step fuel i = some v → (streamDistanceModel ds seq mask step)[i]! = v :=
   fun i hi v hv => (stream_distance_def ds seq mask step htopo hb i hi).unique (walkDist_sound ds mask step fuel i v hv)
 
+/-- **full strength of `stream_distance_eq_spec`**: with the driver's fuel the walk oracle returns a
+value at every cell of the order and it is the model's. -/
+theorem stream_distance_eq_spec_total (ds : Array Nat) (seq : List Nat) (mask : Option (Array Bool))
+    (step : Nat → Nat → Int) (htopo : Topo ds seq) (hb : ∀ i ∈ seq, i < ds.size) :
+    ∀ i ∈ seq, walkDist ds mask step (ds.size + 1) i = some (streamDistanceModel ds seq mask step)[i]! := by
+  intro i hi
+  obtain ⟨v, hv⟩ := walkDist_total_c14 ds mask step _ i (htopo.reach_size_c14 hb i hi)
+  rw [hv, stream_distance_eq_spec ds seq mask step htopo hb _ i hi v hv]
+
 theorem stream_distance_outside (ds : Array Nat) (seq : List Nat) (mask : Option (Array Bool))
     (step : Nat → Nat → Int) (htopo : Topo ds seq) (hb : ∀ i ∈ seq, i < ds.size) (i : Nat)
     (hi : i ∉ seq) (hn : i < ds.size) : (streamDistanceModel ds seq mask step)[i]! = -9999 := by
@@ -357,6 +392,15 @@ theorem hand_eq_spec (ds : Array Nat) (seq : List Nat) (drain : Array Bool) (ele
   simp only [handSpec, Option.map_eq_some_iff] at hv
   obtain ⟨k, hk, rfl⟩ := hv
   exact hand_def ds seq drain elev htopo hb i k hi (walkFirst_sound ds _ _ i k hk)
+
+/-- **full strength of `hand_eq_spec`**: the oracle `handSpec` (walk to the first drainage cell with
+fuel `ds.size + 1`) is defined at every cell of the order and equals the model. -/
+theorem hand_eq_spec_total (ds : Array Nat) (seq : List Nat) (drain : Array Bool) (elev : Array Int)
+    (htopo : Topo ds seq) (hb : ∀ i ∈ seq, i < ds.size) (i : Nat) (hi : i ∈ seq) :
+    handSpec ds drain elev i = some (handModel ds seq drain elev)[i]! := by
+  obtain ⟨k, hk⟩ := walkFirst_total_c14 ds (fun c => drain[c]!) _ i (htopo.reach_size_c14 hb i hi)
+  have hv : handSpec ds drain elev i = some (elev[i]! - elev[k]!) := by simp [handSpec, hk]
+  rw [hv, hand_eq_spec ds seq drain elev htopo hb i hi _ hv]
 
 /-! ### floodplains -/
 
@@ -519,6 +563,23 @@ theorem flood_eq_spec (ds : Array Nat) (seq : List Nat) (P : FpParams)
       · exact absurd (by simpa using hk.1 h) hc
       · exact h
 
+/-- the floodplain oracle never reports "fuel exhausted" (`-2`) on a cell of the order … -/
+theorem floodSpec_defined (ds : Array Nat) (seq : List Nat) (P : FpParams)
+    (htopo : Topo ds seq) (hb : ∀ i ∈ seq, i < ds.size) (i : Nat) (hi : i ∈ seq) :
+    floodSpec ds P i ≠ -2 := by
+  obtain ⟨s, hs⟩ := walkFirst_total_c14 ds (isStream P) _ i (htopo.reach_size_c14 hb i hi)
+  unfold floodSpec
+  rw [hs]
+  simp only []
+  split <;> decide
+
+/-- … **full strength of `flood_eq_spec`**: model = unrolled walk oracle at every cell of every
+downstream-first order, no side condition on the oracle. -/
+theorem flood_eq_spec_total (ds : Array Nat) (seq : List Nat) (P : FpParams)
+    (htopo : Topo ds seq) (hb : ∀ i ∈ seq, i < ds.size) (i : Nat) (hi : i ∈ seq) :
+    (floodplainsModel ds seq P)[i]! = floodSpec ds P i :=
+  flood_eq_spec ds seq P htopo hb i hi (floodSpec_defined ds seq P htopo hb i hi)
+
 /-! ## smooth_rivlen (not part of the property text; an along-network operator modelled here)
 
 `smoothRivlenModel … = (rivlen_out, flag)`; exact rationals. `inRivWindow ds usMain n idx0 k`: `k` is
@@ -675,5 +736,23 @@ example : (smoothRivlenModel dsX usX #[6, 1, 5, -9999, 2, -9999] 3 6 (-9999)).1[
   smooth_rivlen_nodata dsX usX _ 3 6 (-9999) 3 (by decide +kernel)
 example : smoothRivlenModel dsX usX #[6, 1, 5, -9999, 2, -9999] 3 3 (-9999) = (#[6, 1, 5, -9999, 2, -9999], true) :=
   smooth_rivlen_small_window dsX usX _ 3 3 (-9999) (by decide)
+
+-- full-strength oracle equalities (`…_eq_spec_total`): the walks are defined on the whole order
+example : (seqX.map fun i => walkValid dsX #[-1, 7, -1, -1, -1, -1] (-1) (dsX.size + 1) i) =
+    seqX.map fun i => some (fillnodataUpstream dsX seqX #[-1, 7, -1, -1, -1, -1] (-1))[i]! := by decide +kernel
+example : (seqX.map fun i => walkDist dsX none (cellDist 2 3 (-4)) (dsX.size + 1) i) =
+    [some 0, some 3, some 8, some 7, some 12] := by decide +kernel
+example : (seqX.map fun i => handSpec dsX #[false, true, false, false, false, false] #[0, 3, 5, 9, 6, 0] i) =
+    seqX.map fun i => some (handModel dsX seqX #[false, true, false, false, false, false] #[0, 3, 5, 9, 6, 0])[i]! := by
+  decide +kernel
+example : (seqX.map fun i => floodSpec dsX PX i) = [1, 1, 1, 0, 0] := by decide +kernel
+example : pitWithin_c14 dsX 3 4 = false ∧ pitWithin_c14 dsX 4 4 = true := by decide
+
+-- model = oracle for fill 'down' (whole arrays, three merge rules); hypotheses met
+example : coversNet_c14 dsX seqX = true := by decide +kernel
+example : fillDownSpec dsX #[-1, -1, -1, 4, 9, -1] (-1) 2 = #[13, 13, 9, 4, 9, -1] ∧
+    fillDownSpec dsX #[-1, -1, -1, 4, 9, -1] (-1) 1 = #[4, 4, 9, 4, 9, -1] ∧
+    fillDownSpec dsX #[-1, -1, -1, 4, 9, -1] (-1) 0 = #[9, 9, 9, 4, 9, -1] := by decide +kernel
+example : feeders_c14 dsX #[-1, -1, -1, 4, 9, -1] (-1) 0 (List.range 6) = [3, 4] := by decide +kernel
 
 end Pf.C14
